@@ -90,17 +90,32 @@ def main(argv: List[str]) -> int:
     if args.tier == "thorough" and not args.rev:
         # informational: the checker's own both-ways self-test for this property (never changes the exit code)
         try:
-            from .selftest import summary_for
+            from .selftest import regression_replay_for, rename_summary_for, summary_for
 
             st = summary_for(pid, args)
-            if st is not None and not args.no_write:
+            rr = regression_replay_for(pid, args)
+            rf = rename_summary_for(pid, args)
+            if st is not None:
+                print(f"{pid} selftest: {st.get('summary')}")
+            print(f"{pid} regression replay: {rr['summary']}")
+            print(f"{pid} rename fuzz: {rf['summary']}")
+            for r in (st or {}).get("failed", []):
+                print(f"SELFTEST-WARNING {pid}: variant `{r.get('variant')}` -> {r.get('result')} exit={r.get('exit')} fired={r.get('fired')}")
+            for r in rr["replays"]:
+                if r["result"] == "FAILED":
+                    print(f"SELFTEST-WARNING {pid}: finding {r['finding']} is not reported on {r['fix_commit']}~1: {r.get('missing')}")
+            for r in rf["false_alarms"]:
+                print(f"SELFTEST-WARNING {pid}: rename {r} raised a false alarm")
+            if not args.no_write:
                 p = os.path.join(os.path.dirname(os.path.dirname(os.path.abspath(__file__))), "evidence", f"{pid}.json")
                 with open(p) as f:
                     ev = json.load(f)
-                ev["coverage"]["selftest"] = st
+                if st is not None:
+                    ev["coverage"]["selftest"] = st
+                ev["coverage"]["regression_replay"] = rr
+                ev["coverage"]["rename_fuzz"] = rf
                 with open(p, "w") as f:
                     json.dump(ev, f, indent=1)
-                print(f"{pid} selftest: {st.get('summary')}")
         except Exception as e:  # the self-test is informational only
             print(f"{pid} selftest: skipped ({type(e).__name__}: {e})")
     return code
